@@ -68,6 +68,8 @@ type c19Out struct {
 	Items  []string `json:"items"`
 	Alloc  uint64   `json:"alloc"`
 	Calls  int      `json:"calls"`
+	// seen but not judged (outside the property): e.g. a CHUNK payload whose zstd frame declares a large size
+	Observed string `json:"observed,omitempty"`
 }
 
 // ---------- child ----------
@@ -493,21 +495,15 @@ func c19Evaluate(o *vh.Oracle, r *vh.Result, c *c19Case) error {
 	}
 	st := strings.SplitN(c.Impl.Status, ":", 2)[0]
 	r.Dist("result:" + st)
+	if c.Impl.Observed != "" {
+		r.Dist("observed:" + c.Impl.Observed)
+	}
 	if len(r.Samples) < 5 && len(in) > 0 {
 		r.Sample(map[string]interface{}{"decoder": c.Decoder, "generator": c.Gen, "input_len": len(in), "status": c.Impl.Status, "items": len(c.Impl.Items), "alloc": c.Impl.Alloc})
 	}
 	// ---- predicate ----
-	// a CHUNK reply whose zstd frame header declares far more than the payload holds: Decompress allocates it
-	zstdDeclared := uint64(0)
-	if c.Decoder == "client" {
-		zstdDeclared = c19ZstdDeclared(in)
-	}
 	if st == "crash" {
 		how := strings.SplitN(c.Impl.Status[6:], ":", 2)[0]
-		if how == "out-of-memory" && zstdDeclared > 1<<28 {
-			r.Fail("predicate", "client/zstd-declared-size", fmt.Sprintf("client: out of memory on %d bytes of input: a CHUNK payload's zstd frame header declares %d bytes (%s)", len(in), zstdDeclared, c.Gen), c)
-			return nil
-		}
 		r.Fail("predicate", c.Decoder+"/"+how, fmt.Sprintf("%s decoder: %s on %d bytes of input (%s)", c.Decoder, c.Impl.Status[6:], len(in), c.Gen), c)
 		return nil
 	}
@@ -516,9 +512,7 @@ func c19Evaluate(o *vh.Oracle, r *vh.Result, c *c19Case) error {
 		// serving a chunk compresses it (zstd EncodeAll): work per reply sent, not per input byte
 		bound += uint64(len(c.Impl.Items)) * c19AllocPerReply
 	}
-	if c.Impl.Alloc > bound && zstdDeclared > uint64(c19AllocConst) && c.Impl.Alloc < 2*zstdDeclared+bound {
-		r.Fail("predicate", "client/zstd-declared-size", fmt.Sprintf("client allocated %d bytes for %d bytes of input: a CHUNK payload's zstd frame header declares %d bytes and Decompress allocates that before decoding (%s)", c.Impl.Alloc, len(in), zstdDeclared, c.Gen), c)
-	} else if c.Impl.Alloc > bound {
+	if c.Impl.Alloc > bound {
 		r.Fail("predicate", c.Decoder+"/allocation", fmt.Sprintf("%s decoder allocated %d bytes for %d bytes of input (bound %d; %s)", c.Decoder, c.Impl.Alloc, len(in), bound, c.Gen), c)
 	}
 	if o == nil {
@@ -587,7 +581,7 @@ func c19Evaluate(o *vh.Oracle, r *vh.Result, c *c19Case) error {
 		}
 	}
 	// the model's ghost counter against the measurement: the Go cost of what the model counts is a small multiple
-	if c.Impl.Alloc > 8*malloc+bound && !(zstdDeclared > uint64(c19AllocConst) && c.Impl.Alloc < 2*zstdDeclared+bound) { // (that case is the predicate's finding above, not a disagreement about the framing)
+	if c.Impl.Alloc > 8*malloc+bound {
 		r.Fail("corr", "corr:C19/"+c.Decoder+"-alloc", fmt.Sprintf("measured %d bytes, model counts %d", c.Impl.Alloc, malloc), c)
 	}
 	return nil
